@@ -50,6 +50,15 @@ pub fn run(ctx: &Ctx, out: &mut Out) {
         goals.push(format!("exists<X> {{ X: G, {} }}", head));
         work.push((text, goals, co));
     }
+    // blanket impls over marker traits: positive cycles through several tables sharing one unknown
+    let nbl = ctx.budget(150, 5000);
+    for i in 0..nbl {
+        let mut rng = ctx.rng(5, i as u64);
+        let (text, ex, gr) = blanket_program(&mut rng);
+        let mut goals = ex;
+        goals.extend(gr.into_iter().take(3));
+        work.push((text, goals, false));
+    }
     for (widx, (text, goals, coinductive)) in work.into_iter().enumerate() {
         if !ctx.mine(widx) {
             continue;
